@@ -15,12 +15,12 @@ package main
 //                  EVENT frames go to the event handler, never to a pending request
 
 import (
-	"sort"
 	"fmt"
 	"go/ast"
 	"go/constant"
 	"go/token"
 	"go/types"
+	"sort"
 	"strings"
 
 	"golang.org/x/tools/go/ssa"
@@ -29,6 +29,7 @@ import (
 func init() { register("C14", checkC14) }
 
 func checkC14(p *Prog, r *Report) {
+	requireRecognisedDispatch(p)
 	r.NotCov = append(r.NotCov,
 		"ordering/interleaving of events with client connects and disconnects; duplicate suppression in Cluster.addListener (its loop is a no-op, irrelevant while Listen(proxy) is called once)",
 		"delivery by TCP")
@@ -46,7 +47,12 @@ func checkC14(p *Prog, r *Report) {
 // into the cluster: after the fail-over every schema change is delivered twice.
 func controlConnClosedOnError(p *Prog, r *Report, rule string) {
 	r.Rule(rule, "every path of the cluster's connect that returns an error after the connection was opened closes that connection (the deferred clean-up sees the error that is returned); a path that returns nil leaves it open")
-	cl := p.Named("proxycore", "Cluster")
+	connClosedOnError(p, r, rule, p.Named("proxycore", "Cluster"), "connect returns an error at %s but leaves the connection it opened (already registered for events) open: it keeps delivering events to the cluster next to the connection that replaces it, and every schema change reaches the clients twice")
+}
+
+// connClosedOnError: the method of owner that opens a backend connection (ConnectClient) closes
+// it on every path that returns an error afterwards.
+func connClosedOnError(p *Prog, r *Report, rule string, cl *types.Named, leakMsg string) {
 	var fn *ssa.Function
 	for _, m := range p.methodsOf(cl) {
 		if callsDirectly(m, func(c ssa.CallInstruction) bool { return callIsFunc(c, "proxycore", "ConnectClient") }) {
@@ -54,7 +60,7 @@ func controlConnClosedOnError(p *Prog, r *Report, rule string) {
 		}
 	}
 	if fn == nil {
-		fatalf("rule %s: the cluster method that opens the control connection was not found", rule)
+		fatalf("rule %s: the method of %s that opens a backend connection was not found", rule, cl.Obj().Name())
 	}
 	s := newSim(p)
 	s.Inline = func(f *ssa.Function) bool { return f.Parent() == fn }
@@ -104,7 +110,11 @@ func controlConnClosedOnError(p *Prog, r *Report, rule string) {
 		if o.Panic || o.St.aux["opened"] != "1" {
 			continue
 		}
-		switch o.Ret.K {
+		errAV := o.Ret
+		if n := fn.Signature.Results().Len(); n > 1 {
+			errAV = o.Ret.elem(n - 1)
+		}
+		switch errAV.K {
 		case avNil:
 			if o.St.eff["close"] > 0 {
 				bad = append(bad, fmt.Sprintf("the connection is closed although connect succeeds (path ending at %s)", p.Pos(o.Pos)))
@@ -112,14 +122,14 @@ func controlConnClosedOnError(p *Prog, r *Report, rule string) {
 		case avNonNil:
 			nerr++
 			if o.St.eff["close"] == 0 {
-				bad = append(bad, fmt.Sprintf("connect returns an error at %s but leaves the connection it opened (already registered for events) open: it keeps delivering events to the cluster next to the connection that replaces it, and every schema change reaches the clients twice", p.Pos(o.Pos)))
+				bad = append(bad, fmt.Sprintf(leakMsg, p.Pos(o.Pos)))
 			}
 		}
 	}
 	if nerr < 2 {
 		bad = append(bad, fmt.Sprintf("only %d error paths after the connection was opened were found", nerr))
 	}
-	r.check(len(bad) == 0, rule, "Cluster."+fn.Name(), p.Pos(fn.Pos()), fmt.Sprintf("%d error paths after open, each closes the connection", nerr), strings.Join(dedupe(bad), " || "))
+	r.check(len(bad) == 0, rule, cl.Obj().Name()+"."+fn.Name(), p.Pos(fn.Pos()), fmt.Sprintf("%d error paths after open, each closes the connection", nerr), strings.Join(dedupe(bad), " || "))
 }
 
 // c14Handoff: the hand-over of an event frame from the control connection's reader to the
@@ -530,12 +540,31 @@ func c14ClusterDispatch(p *Prog, r *Report, rule string) {
 	fn := p.methodOf(cl, "stayConnected")
 	evF := p.Field("proxycore", "Cluster", "events")
 	lsF := p.Field("proxycore", "Cluster", "listeners")
-	ls := findLoopSelect(p, fn, "events", func(st *ssa.SelectState) string {
+	isEvCase := func(st *ssa.SelectState) string {
 		if f, _ := loadedField(st.Chan); f == evF {
 			return "events"
 		}
 		return ""
-	})
+	}
+	ls := findLoopSelect(p, fn, "events", isEvCase)
+	// the loop state may live in a struct whose methods hold the selects
+	keeperFns := keeperFuncs(p, fn, keeperType(p, fn))
+	if ls == nil {
+		for _, kf := range keeperFns {
+			if l2 := findLoopSelect(p, kf, "events", isEvCase); l2 != nil {
+				ls = l2
+			}
+		}
+	}
+	if ls == nil {
+		for _, h := range withCallees(p, fn, 2) {
+			if h != fn && h.Parent() == nil && recvNamed(h) == cl && onlyCalledFrom(p, h, fn, 3) {
+				if l2 := findLoopSelect(p, h, "events", isEvCase); l2 != nil {
+					ls = l2
+				}
+			}
+		}
+	}
 	if ls == nil {
 		r.bad(rule, "Cluster.stayConnected", p.Pos(fn.Pos()), "the control loop does not receive from the events channel")
 		return
@@ -553,6 +582,21 @@ func c14ClusterDispatch(p *Prog, r *Report, rule string) {
 	for _, h := range withCallees(p, fn, 2) {
 		if h != fn && h.Parent() == nil && recvNamed(h) == cl && onlyCalledFrom(p, h, fn, 3) && h.Name() != "reconnect" {
 			helpers[h] = true
+		}
+	}
+	for _, kf := range keeperFns {
+		helpers[kf] = true
+		for _, h := range withCallees(p, kf, 1) {
+			if h != fn && h.Parent() == nil && recvNamed(h) == cl && h.Name() != "reconnect" && onlyCalledFrom(p, h, fn, 4) {
+				helpers[h] = true
+			}
+		}
+	}
+	// the loop's header: the loop header of the function with the most ways back to it
+	var mainHeader *ssa.BasicBlock
+	for _, b := range fn.Blocks {
+		if isLoopHeader(b) && (mainHeader == nil || len(b.Preds) > len(mainHeader.Preds)) {
+			mainHeader = b
 		}
 	}
 	scan := []*ssa.Function{fn}
@@ -580,7 +624,7 @@ func c14ClusterDispatch(p *Prog, r *Report, rule string) {
 	}
 	s.OnInstr = func(st *State, in ssa.Instruction) {
 		b := in.Block()
-		if in == b.Instrs[0] && isLoopHeader(b) && b.Parent() == fn && len(b.Preds) > 3 {
+		if in == b.Instrs[0] && b == mainHeader {
 			if st.aux["gotEvent"] == "1" && st.aux["dispatched"] != "1" {
 				problems = append(problems, "an event received from the control connection can be dropped without looking at its type (schema changes arriving on that path never reach the clients)")
 			}
@@ -603,16 +647,16 @@ func c14ClusterDispatch(p *Prog, r *Report, rule string) {
 	var schemaTA *ssa.TypeAssert
 	var otherTAs []*ssa.TypeAssert
 	for _, sf := range scan {
-	eachInstr(sf, func(in ssa.Instruction) {
-		if ta, ok := in.(*ssa.TypeAssert); ok && ta.CommaOk {
-			switch {
-			case typeIs(ta.AssertedType, "message", "SchemaChangeEvent"):
-				schemaTA = ta
-			case typeIs(ta.AssertedType, "message", "TopologyChangeEvent"), typeIs(ta.AssertedType, "message", "StatusChangeEvent"):
-				otherTAs = append(otherTAs, ta)
+		eachInstr(sf, func(in ssa.Instruction) {
+			if ta, ok := in.(*ssa.TypeAssert); ok && ta.CommaOk {
+				switch {
+				case typeIs(ta.AssertedType, "message", "SchemaChangeEvent"):
+					schemaTA = ta
+				case typeIs(ta.AssertedType, "message", "TopologyChangeEvent"), typeIs(ta.AssertedType, "message", "StatusChangeEvent"):
+					otherTAs = append(otherTAs, ta)
+				}
 			}
-		}
-	})
+		})
 	}
 	okExtract := func(ta *ssa.TypeAssert, idx int) ssa.Value {
 		for _, ref := range *ta.Referrers() {
@@ -791,33 +835,48 @@ func c14Subscription(p *Prog, r *Report) {
 	// Handshake: registerForEvents on READY and on AUTH success when a handler exists
 	cc := p.Named("proxycore", "ClientConn")
 	hs := p.methodOf(cc, "Handshake")
-	reg := p.methodOf(cc, "registerForEvents")
-	if reg == nil {
-		bad = append(bad, "ClientConn.registerForEvents not found")
-	} else {
-		sites := 0
-		eachCall(hs, func(c ssa.CallInstruction) {
-			callee := c.Common().StaticCallee()
-			if callee == reg {
-				sites++
-			} else if callee != nil && callee.Pkg == hs.Pkg && callee.Parent() == nil && onlyCalledFrom(p, callee, hs, 2) &&
-				callsDirectly(callee, func(cc2 ssa.CallInstruction) bool { return cc2.Common().StaticCallee() == reg }) {
-				sites++ // a private helper of the handshake that does the registration
+	// by role: the function that sends REGISTER with allEvents, wherever the handshake code keeps it
+	g := p.Global("proxycore", "allEvents")
+	var reg *ssa.Function
+	for _, f := range p.ScopedFuncs("proxycore") {
+		if f.Parent() != nil || strings.Contains(p.fileOf(f), "mock") {
+			continue
+		}
+		eachInstr(f, func(in ssa.Instruction) {
+			if ld, ok := in.(*ssa.UnOp); ok && sameGlobal(ld.X, g) {
+				reg = f
 			}
 		})
+	}
+	if reg == nil {
+		bad = append(bad, "no function of the backend handshake registers for allEvents")
+	} else {
+		// the handshake and the functions only it reaches (helpers, methods of a handshake state struct)
+		fam := map[*ssa.Function]bool{hs: true}
+		for _, f := range withCallees(p, hs, 3) {
+			if f.Pkg == hs.Pkg && f.Parent() == nil && f != reg {
+				fam[f] = true
+			}
+		}
+		// a private wrapper (register if there is a handler) takes the role of the function it wraps
+		for i := 0; i < 2; i++ {
+			cs, only := p.staticCallSites(reg)
+			if !only || len(cs) != 1 || cs[0].Parent() == hs || !fam[cs[0].Parent()] {
+				break
+			}
+			reg = cs[0].Parent()
+			delete(fam, reg)
+		}
+		sites := 0
+		for f := range fam {
+			eachCall(f, func(c ssa.CallInstruction) {
+				if c.Common().StaticCallee() == reg {
+					sites++
+				}
+			})
+		}
 		if sites < 2 {
 			bad = append(bad, fmt.Sprintf("Handshake registers for events on %d of its 2 success paths (READY, AUTH_SUCCESS)", sites))
-		}
-		// Register message uses allEvents
-		g := p.Global("proxycore", "allEvents")
-		uses := false
-		eachInstr(reg, func(in ssa.Instruction) {
-			if ld, ok := in.(*ssa.UnOp); ok && sameGlobal(ld.X, g) {
-				uses = true
-			}
-		})
-		if !uses {
-			bad = append(bad, "registerForEvents does not request allEvents")
 		}
 	}
 	// ClientConn.Receive: EVENT -> handler
